@@ -90,3 +90,28 @@ PROPS["C13"] = dict(canon="sys", timeout=1200,
          "and data commands, with and without a password; oracle: every handler call sees the database of its own connection's last successful SELECT, its own authorization, its own user data; "
          "non-trivial = every case",
     trusted_base=SYS_TB, assumptions=["concurrent (unserialised) execution is exercised by C14/C16's workloads; here requests are released one at a time"])
+
+PROPS["C17"] = dict(
+    rule="complete enumeration: every pattern of length <=4 (quick) / <=5 (thorough) over {a,b,*,?,.,+,(,|,$} against every key of length <=3 / <=4 over the same alphabet "
+         "(one case = one pattern, result = bitmap over all keys); random longer patterns over every regexp metacharacter with keys derived from the pattern; "
+         "oracle: glob.Compile never fails and MatchString agrees with the harness' own recursive glob matcher; non-trivial = every case",
+    trusted_base=[KERNEL, TIE, "Go regexp for three token shapes between ^ and $ with (?s): QuoteMeta(c) matches exactly c, '.' one character, '.*' any sequence",
+                  "characters are bytes in the model; the tie uses ASCII"],
+    assumptions=["patterns that are not valid UTF-8 are outside the claimed space (regexp.Compile rejects them)"],
+    exhaustive_note="the bounded alphabet space is enumerated completely")
+
+PROPS["C18"] = dict(canon="xserve", model_is_oracle=True, timeout=1200,
+    rule="single-client programs against the bundled example server through the hook: per data type (strings, hashes, lists, sets, sorted sets) all programs of length <=2 (quick) / <=3 (thorough) "
+         "over a menu of 15..38 commands on a small key/member/value/score pool (collisions, re-adds, renames onto existing and identical keys, pops beyond the end, LIMIT, exclusive bounds), "
+         "plus random programs of 1..40 commands, one type or all mixed; replies compared with the Lean reference store (unordered replies as sorted arrays); non-trivial = every case",
+    trusted_base=[KERNEL, TIE, HOOK, "scores restricted to an exactly representable pool (multiples of 0.5, +-inf as bounds); strconv formatting of those",
+                  "sync.Map and Go map semantics of the example store"],
+    assumptions=["each key is used with one data type; no expiry; SET options other than NX/GET, ZADD flags, LPOP k 0/1 distinctions, SCAN cursors are outside the claimed space (DESIGN.md Appendix B)"])
+
+PROPS["C12"] = dict(canon="serve", prep=True, model_is_oracle=False, timeout=1200,
+    rule="programs run through the real framework with a handler double that replays the results of the Lean reference store (computed per program by `modeldriver prep`): "
+         "GETRANGE/SUBSTR for lengths 0..6 x start,end in -9..9 and ZREVRANGE for sizes 0..5 x start,stop in -7..7 with and without scores (both enumerated exhaustively, with the reply Redis "
+         "defines computed independently in Go as the oracle), counters at the 64-bit boundaries, and random programs of 1..12 commands over every framework-implemented command; "
+         "non-trivial = every case",
+    trusted_base=SERVE_TB + ["the Lean reference store (Model/RefStore) supplies the primitive operations' results; scores from the exactly representable pool"],
+    assumptions=SERVE_AS + ["integers are what strconv.Atoi accepts (a leading + is tolerated)", "PING with an empty-string argument answers +PONG (handler interface cannot tell it from no argument): outside the claimed space"])
